@@ -8,7 +8,7 @@ ASSUMPTIONS = [
     'virtual clock, gated DictStorage-backed store (every storage call is a yield point, as on disk/redis/cloud); the per-backend storage semantics are C15/C04',
 ]
 
-CFGS = [dict(max_msgs=2, flush=True, race_announce=True), dict(max_msgs=3, flush=True, relay_pool=1), dict(max_msgs=3, flush=False, relay_pool=2, foreign=True),
+CFGS = [dict(max_msgs=2, flush=True, race_announce=True), dict(max_msgs=2, flush=True, case_twins=True), dict(max_msgs=3, flush=True, relay_pool=1), dict(max_msgs=3, flush=False, relay_pool=2, foreign=True),
         dict(max_msgs=2, flush=True, backend='disk'), dict(max_msgs=2, flush=False, backend='cloud'),
         dict(max_msgs=2, flush=True), dict(max_msgs=3, flush=False), dict(max_msgs=2, flush=True, junk=True),
         dict(max_msgs=1, flush=True), dict(max_msgs=2, flush=True, relay='pipe'), dict(max_msgs=2, flush=False, relay='pipe1'),
@@ -18,6 +18,8 @@ CFGS = [dict(max_msgs=2, flush=True, race_announce=True), dict(max_msgs=3, flush
 def run(ctx):
     for backend in ('dict', 'shelve', 'disk', 'cloud', 'redis'):
         qharness.scripted_rounds(ctx, ('c01',), backend)
+        qharness.scripted_rounds(ctx, ('c01',), backend, rcpts=(100, 0, 2, 3))
+        qharness.scripted_rounds(ctx, ('c01',), backend, rcpts=(2, 0, 100, 3))
         qharness.scripted_restart(ctx, ('c01',), backend)
     ctx.extra['rule'] = ('random schedules over {enqueue, release any pending storage/relay/load/wait gate with a random result '
                          '(relay: ok/temp/perm/other/mapping/sequence, a stream with results outside the contract; in the relay=pipe/pipe1 configurations the relay is the REAL PipeRelay (per-recipient or not) over scripted processes, exit status incl. death by signal + output being the ground truth; backoff: None/0/5/10), '
